@@ -29,7 +29,8 @@ ASSUMPTIONS = [
 REQUIRED_MONITORS = ["equals_stated_combination", "order_independent", "kernel_reuse_consistent"]
 REQUIRED_BUCKETS = {"quick": ["op:+", "op:*", "op:@", "nested:product-in-sum", "dim:1d", "dim:2d", "zero:some-component",
                               "zero:first-factor", "dispersity:>=2-components", "magnetic", "vector-component",
-                              "python-component", "oriented-component", "lane:asan", "magnetic:all-sld-components", "magnetic:with-nonmagnetic-bystander"]}
+                              "python-component", "oriented-component", "lane:asan", "magnetic:all-sld-components", "magnetic:with-nonmagnetic-bystander",
+                              "magnetic:with-python-bystander", "component-with-empty-mesh"]}
 REQUIRED_BUCKETS["thorough"] = REQUIRED_BUCKETS["quick"]
 
 SFACTORS = ["hardsphere", "hayter_msa", "squarewell", "stickyhardsphere"]
@@ -89,7 +90,7 @@ def gen_expr(rng, force=None):
         om = sas.oriented_models()
         terms[-1][-1] = om[int(rng.integers(len(om)))]
     if force.get("python"):
-        py = [m for m in pool if sas.is_python(m)]
+        py = [m for m in leaf_pool() if sas.is_python(m)]
         terms[-1][0] = py[int(rng.integers(len(py)))]
     return terms
 
@@ -103,7 +104,9 @@ def gen_cases(tier, seed):
     cases = []
     forces = [{"shape": ["LL"], "zero_first": True}, {"shape": ["LL", "L"], "zero_first": True}, {"vector": True},
               {"at": True}, {"oriented": True}, {"python": True}, {"shape": ["LLL"], "zero_first": True}, {},
-              {"mag": "all"}, {"mag": "partial", "shape": ["L", "L"]}, {"mag": "all", "shape": ["LL", "L"]}]
+              {"mag": "all"}, {"mag": "partial", "shape": ["L", "L"]}, {"mag": "all", "shape": ["LL", "L"]},
+              {"mag": "all", "shape": ["L", "L"], "python": True}, {"mag": "all", "shape": ["LL"], "python": True},
+              {"empty": True, "shape": ["L", "L"]}, {"empty": True, "shape": ["L", "L", "L"]}, {"empty": True, "shape": ["LL", "L"]}]
     for k in range(n):
         cases.append({"id": "expr/%04d" % k, "k": k, "seed": seed, "force": forces[k % len(forces)],
                       "dim": "2d" if (k % 3 == 1 or forces[k % len(forces)].get("mag")) else "1d", "lane": "plain", "group": "g%d" % (k % 64), "cost": 1})
@@ -117,7 +120,7 @@ def gen_cases(tier, seed):
 # parameters
 # ---------------------------------------------------------------------------
 
-def leaf_parameters(factor, rng, seedk, dim, want_zero=False, want_pd=True, want_mag=False):
+def leaf_parameters(factor, rng, seedk, dim, want_zero=False, want_pd=True, want_mag=False, want_empty=False):
     """Parameter dict (leaf's own names) for one factor evaluated alone."""
     i = sas.info(factor) if "@" not in factor else load_info(factor)
     pars = sas.base_pars(i, seedk)
@@ -149,6 +152,16 @@ def leaf_parameters(factor, rng, seedk, dim, want_zero=False, want_pd=True, want
                                int(rng.integers(2, 6)), w, 2.0)
         if npd:
             tags.add("pd")
+    if want_empty and "@" not in factor:
+        # a distribution that lies entirely outside the parameter's limits: this component's mesh is empty
+        cand = [p for p in i.parameters.kernel_parameters if p.type == "volume" and p.length == 1 and p.limits[0] == 0
+                and p.name in sas.active_names(i, pars)]
+        if cand:
+            p = cand[int(rng.integers(len(cand)))]
+            pars[p.name] = -abs(pars[p.name]) - 1.0
+            pars[p.name + "_pd"], pars[p.name + "_pd_n"] = 0.1, int(rng.integers(1, 6))
+            pars[p.name + "_pd_nsigma"], pars[p.name + "_pd_type"] = 2.0, "gaussian"
+            tags.add("empty")
     if want_mag and dim == "2d" and not sas.is_python(i) and i.parameters.nmagnetic > 0:
         slds = [p.name for p in i.parameters.call_parameters if p.type == "sld"
                 and p.name in sas.active_names(i, pars)]
@@ -244,7 +257,9 @@ def run_case(case, rec):
             wz = (zero_first and ti == 0 and fi == 0) or (rng.random() < 0.08)
             i, lp, tags = leaf_parameters(f, rng, case["seed"]*7919 + case["k"]*13 + ti*5 + fi, dim,
                                           want_zero=wz, want_pd=True,
-                                          want_mag=want_mag and not (partial_mag and (ti + fi) % 2 == 1))
+                                          want_mag=want_mag and not (partial_mag and (ti + fi) % 2 == 1),
+                                          want_empty=bool((case.get("force") or {}).get("empty")) and ti == len(terms) - 1 - (case["k"] % 2)
+                                          and fi == 0)
             row.append((f, i, lp, tags))
             tags_all.append(tags)
         leaves.append(row)
@@ -313,6 +328,11 @@ def run_case(case, rec):
     try:
         I = evaluate(expr, cpars, qv)
     except NotImplementedError as exc:
+        if not refused:
+            # every part evaluates alone, so the stated combination exists and the mixture must produce it
+            rec.check("equals_stated_combination", False,
+                      dict(ctx, note="mixture refused although every part evaluates alone: %r" % (exc,)))
+            return
         rec.seen("documented_refusal")
         rec.count("documented_refusals")
         rec.set_shape((expr, dim, "refused"), False)
@@ -326,24 +346,14 @@ def run_case(case, rec):
     anymag = any("mag" in t for t in tags_all)
     bystander = [f for row in leaves for f, i, lp, tags in row
                  if "mag" not in tags and not sas.is_python(i) and i.parameters.nmagnetic > 0]
+    pybystander = [f for row in leaves for f, i, lp, tags in row if "@" not in f and sas.is_python(i)]
+    if any("empty" in t for t in tags_all):
+        rec.bucket("component-with-empty-mesh")
+    if anymag and pybystander:
+        rec.bucket("magnetic:with-python-bystander")
     if anymag and bystander:
-        # a component with SLDs but no magnetisation next to a magnetic one: the listed finding is that
-        # such a part comes out multiplied by (w_dd + w_uu); anything else is a new violation
-        ui = min(max(cpars.get("up_frac_i", 0.0), 0.0), 1.0)
-        uf = min(max(cpars.get("up_frac_f", 0.0), 0.0), 1.0)
-        fac = ((1 - ui)*(1 - uf) + ui*uf)/max(uf, 1 - uf)
-        alt = np.zeros(len(qv[0]))
-        it = iter(parts_I)
-        for (scale_name, facs), row in zip(layout, leaves):
-            xs = cpars.get(scale_name, 1.0) if scale_name else 1.0
-            term = np.ones(len(qv[0]))
-            for (f, i, lp, tags) in row:
-                f_, Ik = next(it)
-                term = term*(Ik*fac if f in bystander and "mag" not in tags else Ik)
-            alt = alt + xs*term
-        alt = scale*alt + bg
-        if core.close(I, alt, 1e-9, 1e-12*float(np.max(np.abs(alt)))):
-            key = "C08/nonmagnetic-component-in-magnetic-mixture"
+        # a component with SLDs but no magnetisation next to a magnetic one (repaired defect 7cb59fce: it used
+        # to come out multiplied by (w_dd + w_uu)); no allowance is made for it any more
         rec.bucket("magnetic:with-nonmagnetic-bystander")
     elif anymag:
         rec.bucket("magnetic:all-sld-components")
